@@ -5,7 +5,7 @@ from .. import core, gen, impl_aio, scen
 from . import c01, c17
 
 ID = "C18"
-BUDGET = {"quick": 250, "thorough": 25000}
+BUDGET = {"quick": 1000, "thorough": 125000}
 RULE = ("scenario = asyncio scheduler under the virtual-time loop, 1-4 jobs (all types, limits incl. one-shots and last attempts, "
         "stop), coroutines that sleep and/or delete their own job, another job, by tags or everything, or schedule a new job; "
         "history of scheduling, delete_job (before the first run, between runs, during a suspended run, after retirement, unknown), "
